@@ -32,6 +32,7 @@ import (
 	"github.com/formancehq/ledger/internal/bus"
 	ledgercontroller "github.com/formancehq/ledger/internal/controller/ledger"
 	systemcontroller "github.com/formancehq/ledger/internal/controller/system"
+	storagedriver "github.com/formancehq/ledger/internal/storage/driver"
 )
 
 // Knobs are the tuning parameters randomised per run ("buggify").
@@ -60,6 +61,8 @@ type Incarnation struct {
 	crashed chan struct{}
 	knobs   Knobs
 	repl    systemcontroller.ReplicationBackend
+	// realDriver: the real internal/storage/driver.Driver (real-SQL runs only, see realdriver.go)
+	realDriver *storagedriver.Driver
 }
 
 // EventRec is one listener callback.
@@ -208,6 +211,9 @@ func (w *World) NewIncarnation(k Knobs, listener ledgercontroller.Listener, repl
 	inc := &Incarnation{w: w, epoch: epoch, crashed: make(chan struct{}), knobs: k, repl: repl}
 	inc.sqlDB = sql.OpenDB(&Connector{w: w, epoch: epoch})
 	inc.bunDB = bun.NewDB(inc.sqlDB, pgdialect.New(), bun.WithDiscardUnknownColumns())
+	if w.realSQL {
+		inc.realDriver = newRealDriver(inc)
+	}
 
 	var (
 		machineParser     ledgercontroller.NumscriptParser = ledgercontroller.NewDefaultNumscriptParser()
